@@ -1,4 +1,5 @@
 import PyresampleModel.Model.C06
+import PyresampleModel.Model.Compact
 import PyresampleModel.Proofs.Num
 import Mathlib.Tactic.LinearCombination
 
@@ -405,6 +406,33 @@ theorem parallelogram_sign_defect :
     ∃ (p1 p2 p3 p4 : Pt) (ox oy t s : Rat), (p4.x = p2.x + p3.x - p1.x ∧ p4.y = p2.y + p3.y - p1.y) ∧
       parallelogram p1 p2 p3 ox oy = some (t, s) ∧ bilinMap p1 p2 p3 p4 s t ≠ ⟨ox, oy⟩ :=
   ⟨⟨-1, 1⟩, ⟨1, 1⟩, ⟨-2, -1⟩, ⟨0, -1⟩, -1/2, 0, 1/2, 0, by decide +kernel⟩
+
+
+/-! ### look-up tables into the compacted source -/
+
+
+theorem compact_map {α β} (f : α → β) : ∀ (xs : List α) (fs : List Bool), compact (xs.map f) fs = (compact xs fs).map f := by
+  intro xs
+  induction xs with
+  | nil => intro fs; cases fs <;> simp [compact]
+  | cons x xs ih =>
+    intro fs
+    cases fs with
+    | nil => simp [compact]
+    | cons b fs => cases b <;> simp [compact, ih]
+
+/-- **the row / column look-up tables address the right pixel**: for a source of `N = H·W` raveled pixels of which `valid` are kept,
+the `k`-th kept pixel's value is the 2-D data at (row, column) = the `k`-th entries of the compacted line and column tables
+(`_get_slices`: `lines, cols = meshgrid…; [valid_input_index]; [index_array]`) -/
+theorem lut_gather {β} (W N : Nat) (data : Nat → β) (valid : List Bool) (k : Nat) :
+    (compact ((List.range N).map data) valid)[k]? =
+      ((compact ((List.range N).map (· / W)) valid)[k]?).bind (fun r =>
+        ((compact ((List.range N).map (· % W)) valid)[k]?).map (fun c => data (r * W + c))) := by
+  rw [compact_map, compact_map, compact_map]
+  simp only [List.getElem?_map]
+  cases (compact (List.range N) valid)[k]? with
+  | none => simp
+  | some i => simp [Nat.div_add_mod']
 
 
 /-! ### non-vacuity -/
